@@ -82,24 +82,26 @@ def assign_positions(rng, fields):
         r = rng.random()
         if r < 0.45:
             f["position"] = None
-        elif r < 0.52:
+        elif r < 0.52 and far_pos and far_neg:
             f["position"] = far_pos.pop() if rng.random() < 0.6 else far_neg.pop()
         else:
             sl = slots.pop()
             f["position"] = sl if rng.random() < 0.6 else sl - (n + 1)
 
 
-def gen_case(rng, *, word, n_max=6, allow_bad_def=0.07, blank_sep_templated=True, blank_sep_dots=False, outargs=True) -> dict:
+def gen_case(rng, *, word, n_max=6, allow_bad_def=0.07, blank_sep_templated=True, blank_sep_dots=False, outargs=True, class_form=0.0) -> dict:
     n = rng.choice([0, 1, 2, 2, 3, 3, 4, 4, 5, n_max])
     fields = []
     names = [f"f{chr(ord('a') + i)}" for i in range(n + 2)]
+    if rng.random() < 0.6:  # definition order must not coincide with name order (the class form sorts by name)
+        rng.shuffle(names)
     for i in range(n):
         is_out = outargs and i >= max(1, n - 2) and rng.random() < 0.15
         kind = "out" if is_out else rng.choice(
             ["bool", "bool", "str", "str", "str", "int", "float", "path", "list_str", "list_str", "list_int", "list_path", "multi_str"]
         )
         name = names[i]
-        optional = rng.random() < 0.45 if kind != "bool" else False
+        optional = rng.random() < (0.45 if kind != "bool" else 0.35)  # `T | None` variants of every kind, flags included
         # argstr
         r = rng.random()
         flag = rng.choice(["-", "--"]) + rng.choice(["a", "b", "v", "x", "opt", "long-name", "k2"])
@@ -161,7 +163,10 @@ def gen_case(rng, *, word, n_max=6, allow_bad_def=0.07, blank_sep_templated=True
             values.append(gen_scalar(rng, k, word))
     exe = rng.choice([["exe"], ["exe"], ["tool"], ["git", "commit"]])
     append = [word(rng) or "w" for _ in range(rng.choice([0, 0, 0, 1, 2]))]
-    return {"exe": exe, "fields": fields, "values": values, "append": append}
+    c = {"exe": exe, "fields": fields, "values": values, "append": append}
+    if rng.random() < class_form:
+        c["form"] = "class"
+    return c
 
 
 # --------------------------------------------------------------------------------------
@@ -252,7 +257,20 @@ def build_class(case):
             elif f["kind"] == "bool":
                 kw["default"] = False
             ins.append(shell.arg(**kw))
-    return shell.define(" ".join(case["exe"]), inputs=ins, outputs=outs, name=f"ArgvCase{next(_uid)}")
+    name = f"ArgvCase{next(_uid)}"
+    if case.get("form") == "class":
+        # canonical form: a class with the fields as attributes (fields are then collected with dir(klass))
+        def members(flds):
+            d = {"__annotations__": {}}
+            for a in flds:
+                d["__annotations__"][a.name] = a.type
+                d[a.name] = a
+            return d
+
+        outputs_cls = type("Outputs", (shell.Outputs,), members(outs))
+        klass = type(name, (shell.Task,), {"executable": case["exe"][0] if len(case["exe"]) == 1 else list(case["exe"]), "Outputs": outputs_cls, **members(ins)})
+        return shell.define(klass)
+    return shell.define(" ".join(case["exe"]), inputs=ins, outputs=outs, name=name)
 
 
 def out_template(f) -> str:
@@ -384,7 +402,7 @@ def model_query(case) -> dict:
     for f, v in zip(case["fields"], case["values"]):
         k = f["kind"]
         fields.append(
-            {"name": f["name"], "bool": k == "bool", "multi": k == "multi_str", "argstr": f["argstr"], "position": f["position"], "sep": f["sep"]}
+            {"name": f["name"], "bool": k == "bool", "multi": k == "multi_str", "optional": bool(f["optional"]), "argstr": f["argstr"], "position": f["position"], "sep": f["sep"]}
         )
         if v is None:
             values.append(None)
@@ -514,16 +532,37 @@ def spec_argv(case, *, atomic: bool = False) -> list[str]:
 # match rules of the known findings (predicates on the case)
 
 
+def parsed_order(case):
+    """Indices of the fields in `parsed_inputs` order: as written for inputs=/outputs=, sorted by name (inputs, then
+    outargs) for the class form, where the fields are collected with dir(klass)."""
+    idx = list(range(len(case["fields"])))
+    if case.get("form") != "class":
+        return idx
+    name = lambda i: case["fields"][i]["name"]
+    return sorted((i for i in idx if not case["fields"][i]["out"]), key=name) + sorted((i for i in idx if case["fields"][i]["out"]), key=name)
+
+
 def implicit_slots(case):
-    """Positions after shell.define (re-implemented here for the D26 match rule only)."""
+    """Positions after shell.define, per field index (re-implemented here for the match rules only)."""
     ps = [f["position"] for f in case["fields"]] + [0]
     n = len(ps)
     occ = {(p if p >= 0 else n + p) for p in ps if p is not None}
     free = [i for i in range(n) if i not in occ]
-    out = []
-    for p in ps[:-1]:
-        out.append(free.pop(0) if p is None else p)
+    out = list(ps[:-1])
+    for i in parsed_order(case):
+        if out[i] is None:
+            out[i] = free.pop(0)
     return out
+
+
+def rule_D45(case, is_set_fn=None) -> bool:
+    """class form: two set unpositioned fields whose name order differs from their definition order"""
+    if case.get("form") != "class":
+        return False
+    is_set_fn = is_set_fn or is_set
+    un = [i for i, (f, v) in enumerate(zip(case["fields"], case["values"])) if is_set_fn(f, v) and f["position"] is None]
+    po = [i for i in parsed_order(case) if i in un]
+    return po != un
 
 
 def rule_D26(case, is_set_fn=None) -> bool:
@@ -677,8 +716,8 @@ def model_query_x(case) -> dict:
         k = f["kind"]
         fields.append(
             {
-                "name": f["name"], "bool": k == "bool", "multi": k == "multi_str", "argstr": f["argstr"], "position": f["position"], "sep": f["sep"],
-                "readonly": bool(f.get("readonly")), "file_union": k in ("fbool", "out"), "allowed": None if f.get("allowed") is None else [_scalar_json(ELEM.get(k, k), x) for x in f["allowed"]],
+                "name": f["name"], "bool": k == "bool", "multi": k == "multi_str", "optional": bool(f["optional"]), "argstr": f["argstr"], "position": f["position"], "sep": f["sep"],
+                "out": bool(f["out"]), "readonly": bool(f.get("readonly")), "file_union": k in ("fbool", "out"), "allowed": None if f.get("allowed") is None else [_scalar_json(ELEM.get(k, k), x) for x in f["allowed"]],
                 "formatter": f.get("formatter"), "template": {"tmpl": out_template(f), "keep": (f.get("template") or {}).get("keep", True)} if k == "out" else None,
             }
         )
@@ -692,7 +731,7 @@ def model_query_x(case) -> dict:
             values.append([_scalar_json(ELEM[k], x) for x in v])
         else:
             values.append(_scalar_json("str" if k == "ro" else k, v))
-    return {"op": "runx", "exe": case["exe"], "fields": fields, "values": values, "append": case["append"], "xenv": xenv_of(case), "cd": OUT_TAG}
+    return {"op": "runx", "exe": case["exe"], "fields": fields, "values": values, "append": case["append"], "xenv": xenv_of(case), "cd": OUT_TAG, "class_form": case.get("form") == "class"}
 
 
 MODEL_ERR_X = dict(MODEL_ERR, notAllowed="init:ValueError", mandatory="ValueError", readonlyGiven="Exception", formatterArg="AttributeError", reformat="ValueError", template="template")
@@ -819,7 +858,7 @@ def gen_case_x(rng, *, word=None) -> dict:
             f["argstr"] = flag + rng.choice(["=", " "]) + "{" + f["name"] + spec + "}"
         elif r < 0.33 and f["kind"] in ("str", "int") and v is not None:
             pool = [v] + [gen_scalar(rng, f["kind"], word) for _ in range(2)]
-            f["allowed"] = pool if rng.random() < 0.85 else pool[1:]
+            f["allowed"] = pool if rng.random() < 0.7 else pool[1:]
         elif r < 0.5:
             others = [g["name"] for g, w in zip(fields, values) if g is not f and g["kind"] in ("str", "int") and (w is not None or rng.random() < 0.15)]
             args = rng.sample(["field", "inputs", f["name"]] + others[:2], k=rng.randint(1, min(3, 3 + len(others[:2]))))
